@@ -328,4 +328,177 @@ example : (readModel exText).all (fun c => Spec.lossyShape c && tailShape c &&
     decide (Lossless.findLicenseForFile c "a/b".toList
       = .ok (some (.named "GPL".toList "text".toList)))) = true := by decide +kernel
 
+/-! ## the exact panic condition of the lookup -/
+
+theorem matchGlob_panic_iff (g p : Str) : (matchGlob g p).isOk = false ↔ validEscapes g = false := by
+  rw [← C17_glob_panic_iff]
+  unfold matchGlob
+  cases globToRegex g <;> simp [Outcome.map, Outcome.isOk]
+
+/-- `any` short-circuits: it panics exactly when a pattern with an invalid escape is reached
+    after a run of patterns that were each compiled and did not match -/
+theorem anyMatch_panic_iff (gs : List Str) (path : Str) :
+    (anyMatch gs path).isOk = false ↔
+      ∃ pre g post, gs = pre ++ g :: post ∧ validEscapes g = false ∧
+        ∀ x ∈ pre, matchGlob x path = .ok false := by
+  induction gs with
+  | nil => simp [anyMatch, Outcome.isOk]
+  | cons g rest ih =>
+    simp only [anyMatch]
+    cases hm : matchGlob g path with
+    | panic site =>
+      have hv : validEscapes g = false := (matchGlob_panic_iff g path).1 (by simp [hm, Outcome.isOk])
+      simp only [Outcome.isOk, true_iff]
+      exact ⟨[], g, rest, rfl, hv, by simp⟩
+    | ok b =>
+      have hv : validEscapes g = true := by
+        cases h : validEscapes g with
+        | true => rfl
+        | false => have := (matchGlob_panic_iff g path).2 h; simp [hm, Outcome.isOk] at this
+      cases b with
+      | true =>
+        simp only [Outcome.isOk, Bool.true_eq_false, false_iff]
+        rintro ⟨pre, g', post, he, hg', hpre⟩
+        cases pre with
+        | nil => simp at he; rw [← he.1, hv] at hg'; cases hg'
+        | cons x xs =>
+          simp at he
+          have := hpre x (by simp)
+          rw [← he.1, hm] at this; cases this
+      | false =>
+        simp only []
+        rw [ih]
+        constructor
+        · rintro ⟨pre, g', post, he, hg', hpre⟩
+          refine ⟨g :: pre, g', post, by simp [he], hg', ?_⟩
+          intro x hx
+          simp only [List.mem_cons] at hx
+          rcases hx with rfl | hx
+          · exact hm
+          · exact hpre x hx
+        · rintro ⟨pre, g', post, he, hg', hpre⟩
+          cases pre with
+          | nil => simp at he; rw [← he.1, hv] at hg'; cases hg'
+          | cons x xs =>
+            simp at he
+            exact ⟨xs, g', post, he.2, hg', fun y hy => hpre y (by simp [hy])⟩
+
+/-- `filter(pred)` driven to the end panics exactly when the predicate panics on some element
+    (every element before it is evaluated, whatever it answers) -/
+theorem filterO_panic_iff {α} (f : α → Outcome Bool) (l : List α) :
+    (filterO f l).isOk = false ↔ ∃ a ∈ l, (f a).isOk = false := by
+  induction l with
+  | nil => simp [filterO, Outcome.isOk]
+  | cons a as ih =>
+    simp only [filterO]
+    cases hf : f a with
+    | panic s => simp [Outcome.isOk, hf]
+    | ok b =>
+      cases hr : filterO f as with
+      | panic s =>
+        have := ih.1 (by simp [hr, Outcome.isOk])
+        obtain ⟨x, hx, hxp⟩ := this
+        simp only [Outcome.isOk, true_iff]
+        exact ⟨x, by simp [hx], hxp⟩
+      | ok r =>
+        have hn : ¬ ∃ x ∈ as, (f x).isOk = false := by
+          intro h; have := ih.2 h; simp [hr, Outcome.isOk] at this
+        simp only [Outcome.isOk, Bool.true_eq_false, false_iff]
+        rintro ⟨x, hx, hxp⟩
+        simp only [List.mem_cons] at hx
+        rcases hx with rfl | hx
+        · simp [hf] at hxp
+        · exact hn ⟨x, hx, hxp⟩
+
+theorem paraMatches_of_files {fp : Para} (h : fp ∈ Spec.filesParas c) (path : Str) :
+    Lossless.paraMatches fp path = anyMatch (Spec.patterns fp) path := by
+  obtain ⟨v, hv⟩ : ∃ v, fp.get kFiles = some v := by
+    simp only [Spec.filesParas, List.mem_filter, Para.containsKey] at h
+    exact Option.isSome_iff_exists.1 h.2
+  simp [Lossless.paraMatches, Lossless.files, Spec.patterns, hv]
+
+/-- **C17, the exact panic condition of `find_files`** (lossless view; every paragraph list,
+    every path — newline or not): the lookup panics exactly when SOME Files paragraph after the
+    header — not necessarily one that would match, nor the last — has a pattern with an invalid
+    escape that is reached by the `any`, i.e. all patterns before it in the same field were
+    compiled and did not match. `Files: x \` answers for path `x` and panics for path `y`; one bad
+    pattern anywhere poisons the lookup of unrelated paths (`C17_panic_poisons`). -/
+theorem C17_find_files_panic_iff (c : Doc) (path : Str) :
+    (Lossless.findFiles c path).isOk = false ↔
+      ∃ fp ∈ Spec.filesParas c, ∃ pre g post, Spec.patterns fp = pre ++ g :: post ∧
+        validEscapes g = false ∧ ∀ x ∈ pre, matchGlob x path = .ok false := by
+  have h1 : (Lossless.findFiles c path).isOk =
+      (filterO (Lossless.paraMatches · path) (Lossless.iterFiles c)).isOk := by
+    unfold Lossless.findFiles
+    cases filterO (Lossless.paraMatches · path) (Lossless.iterFiles c) <;> simp [Outcome.map, Outcome.isOk]
+  rw [h1, filterO_panic_iff]
+  constructor
+  · rintro ⟨fp, hfp, hp⟩
+    have hfp' : fp ∈ Spec.filesParas c := hfp
+    rw [paraMatches_of_files hfp', anyMatch_panic_iff] at hp
+    exact ⟨fp, hfp', hp⟩
+  · rintro ⟨fp, hfp, hp⟩
+    refine ⟨fp, hfp, ?_⟩
+    rw [paraMatches_of_files hfp, anyMatch_panic_iff]
+    exact hp
+
+/-- "compiled and did not match", in the property's terms (newline-free path) -/
+theorem matchGlob_false_iff (x path : Str) (hp : '\n' ∉ path) :
+    matchGlob x path = .ok false ↔ validEscapes x = true ∧ ¬ GlobSpec.Matches x path := by
+  cases hv : validEscapes x with
+  | false =>
+    have := (matchGlob_panic_iff x path).2 hv
+    constructor
+    · intro h; simp [h, Outcome.isOk] at this
+    · rintro ⟨h, _⟩; cases h
+  | true =>
+    obtain ⟨b, hb⟩ := C17_glob_total x path hv
+    have := C17_glob x path hv hp
+    rw [hb] at this ⊢
+    cases b <;> simp_all
+
+/-- `find_license_for_file` panics exactly when `find_files` does -/
+theorem C17_find_license_panic_iff (c : Doc) (path : Str) :
+    (Lossless.findLicenseForFile c path).isOk = false ↔ (Lossless.findFiles c path).isOk = false := by
+  cases h : Lossless.findFiles c path with
+  | panic s => simp [Lossless.findLicenseForFile, h, Outcome.isOk]
+  | ok o => rw [lossless_license_of_found c path o h]; simp [Outcome.isOk]
+
+/-- the lossy view panics on exactly the same (file, path) pairs -/
+theorem C17_find_files_panic_iff_lossy (s : Str) (c : Doc) (cr : Lossy.Copyright) (path : Str)
+    (hr : readModel s = some c) (hacc : Lossy.fromStr readModel s = .ok cr) :
+    (Lossy.findFiles cr path).isOk = (Lossless.findFiles c path).isOk ∧
+    (Lossy.findLicenseForFile cr path).isOk = (Lossless.findFiles c path).isOk := by
+  obtain ⟨_, hff, hl⟩ := C17_lossless_eq_lossy_of_accepted readModel s c cr path hr hacc
+    (C17_reader_licenceNamed s c hr)
+  rw [hff, hl]
+  cases h : Lossless.findFiles c path with
+  | panic st => simp [Lossless.findLicenseForFile, h, Outcome.isOk, Outcome.map]
+  | ok o => rw [lossless_license_of_found c path o h]; simp [Outcome.isOk, Outcome.map]
+
+/-! ### witnesses -/
+
+def poisonText : Str :=
+  "Format: x\n\nFiles: x \\\nCopyright: c\nLicense: A\n\nFiles: *\nCopyright: d\nLicense: B\n t\n".toList
+
+/-- `Files: x \` followed by `Files: *`: path `x` is answered (the `any` stops at `x`, the
+    backslash is never compiled; the last matching paragraph `*` wins), every other path panics
+    although the later paragraph `*` matches it — in both views, for a text through the reader -/
+theorem C17_panic_poisons :
+    (readModel poisonText).all (fun c =>
+      decide (Lossless.findLicenseForFile c "x".toList = .ok (some (.named "B".toList "t".toList))) &&
+      !(Lossless.findFiles c "y".toList).isOk && !(Lossless.findFiles c "zzz/unrelated".toList).isOk &&
+      !(Lossless.findLicenseForFile c "y".toList).isOk) = true ∧
+    (readModel poisonText).isSome = true ∧
+    (match Lossy.fromStr readModel poisonText with
+      | .ok cr => (Lossy.findFiles cr "x".toList).isOk && !(Lossy.findFiles cr "y".toList).isOk
+      | .error _ => false) = true := by
+  refine ⟨?_, ?_, ?_⟩ <;> decide +kernel
+
+example : ∃ fp ∈ Spec.filesParas [C17.hdr, C17.fpara "x \\" "A"], ∃ pre g post,
+    Spec.patterns fp = pre ++ g :: post ∧ validEscapes g = false ∧
+      ∀ x ∈ pre, matchGlob x "y".toList = .ok false :=
+  ⟨C17.fpara "x \\" "A", by decide +kernel, ["x".toList], "\\".toList, [], by decide +kernel,
+    by decide +kernel, by decide +kernel⟩
+
 end Deb822Verif.Props.C17Text
